@@ -48,6 +48,18 @@ func genTail(r *vlib.RNG, cfg dbh.Cfg, pool [][]byte) []dbh.Op {
 	}
 	var ops []dbh.Op
 	n := []int{0, 0, 1, 2, 3, 5, 8}[r.Intn(7)]
+	if r.Chance(1, 4) {
+		// a value that fills the write buffer: the next write rotates the buffer, so the shutdown state has a
+		// table numbered above the live journal
+		big := make([]byte, cfg.WriteBuffer)
+		for i := range big {
+			big[i] = byte('A' + (i*11+n)%26)
+		}
+		ops = append(ops, dbh.Op{Kind: dbh.OpPut, K: small[r.Intn(len(small))], V: big})
+		if n == 0 {
+			n = 2
+		}
+	}
 	for i := 0; i < n; i++ {
 		k := small[r.Intn(len(small))]
 		val := func() []byte { return []byte(fmt.Sprintf("tail-%d-%d", i, r.Intn(1000))) }
@@ -95,7 +107,23 @@ func genCase(r *vlib.RNG, nops int, forceDamage int) *Case {
 			cfg.WriteBuffer = 2048
 		}
 	}
+	deep := !small && r.Chance(1, 6)
+	if deep {
+		// many distinct keys so that the live data overflows level 1 and level 2
+		n = r.Range(nops/2, nops)
+		pool = dbh.GenPool(r, r.Range(100, 220), false)
+		w.Put, w.Batch, w.Get, w.Has = 60, 14, 5, 2
+	}
 	c := &Case{Prog: dbh.GenProgram(r, cfg, pool, n, w)}
+	if deep {
+		// keep several levels populated: no whole-range compaction in the later part of the program
+		for i := len(c.Prog.Ops) / 4; i < len(c.Prog.Ops); i++ {
+			op := &c.Prog.Ops[i]
+			if op.Kind == dbh.OpCompact && !op.HasK && !op.HasK2 {
+				op.HasK2, op.K2 = true, pool[r.Intn(len(pool))]
+			}
+		}
+	}
 	c.Tail = genTail(r, cfg, pool)
 	c.MD.Manifest = []string{"delete", "delete", "truncate", "truncate", "garbage", "garbage", "flip", "empty", "keep"}[r.Intn(9)]
 	c.MD.Current = []string{"keep", "clear", "clear", "dangling"}[r.Intn(4)]
@@ -117,6 +145,8 @@ func genCase(r *vlib.RNG, nops int, forceDamage int) *Case {
 	}
 	if len(c.BD) >= 2 && r.Chance(1, 3) {
 		c.Interrupt = r.Range(1, 3)
+	} else if len(c.BD) >= 1 && r.Chance(1, 6) {
+		c.StrictRecovery = true
 	}
 	pw := dbh.DefaultWeights()
 	pw.Reopen, pw.Compact = 4, 5
@@ -234,7 +264,7 @@ func main() {
 		return
 	}
 
-	ncases, nops, kcap := 320, 600, 48
+	ncases, nops, kcap := 256, 600, 48
 	if a.Thorough() {
 		ncases, nops, kcap = 6000, 1200, 400
 	}
